@@ -118,12 +118,7 @@ func (h *hpFilter) refresh(doms []string) {
 func (h *hpFilter) close() { _ = os.RemoveAll(filepath.Dir(h.src)) }
 
 func (h *hpFilter) query(req *filter.Request) filter.Result {
-	res, err := h.f.FilterRequest(context.Background(), req)
-	if err != nil {
-		panic(fmt.Errorf("hashprefix FilterRequest: %w", err))
-	}
-
-	return res
+	return guard(func() (filter.Result, error) { return h.f.FilterRequest(context.Background(), req) }, "hashprefix FilterRequest")
 }
 
 // hpTok is the model-level token of a hash-prefix result.
@@ -323,6 +318,63 @@ func hashPrefixCampaign(o *hlib.Opts, r *hlib.Result, m *hlib.Model) {
 			min := hlib.Shrink(ops, func(c []hpOp) bool { return hpWellFormed(c) && runHP(r, m, rep, capn, c, false) == fail })
 			runHP(r, m, rep, capn, min, true)
 		}
+	}
+	if o.Thorough() {
+		exhaustiveHP(r, m)
+	}
+}
+
+// exhaustiveHP enumerates every history of length ≤ 5 over a small alphabet:
+// two list versions, two requesters with different settings asking for a listed
+// host and a subdomain of it, and (host replacement) a lookup that is parked
+// across whatever follows until its finish.  Capacity-1 cache.
+func exhaustiveHP(r *hlib.Result, m *hlib.Model) {
+	for _, rep := range []string{"host", "ip4"} {
+		alphabet := []hpOp{
+			{kind: "refresh", doms: []string{"a.example.com"}},
+			{kind: "refresh", doms: nil},
+			{kind: "q", prof: 0, qt: dns.TypeA, host: "a.example.com", edns: true},
+			{kind: "q", prof: 1, qt: dns.TypeHTTPS, host: "www.a.example.com"},
+			{kind: "q", prof: 3, qt: dns.TypeAAAA, host: "b.example.com", edns: true},
+		}
+		if rep == "host" {
+			alphabet = append(alphabet, hpOp{kind: "begin", tid: 1, prof: 2, qt: dns.TypeA, host: "www.a.example.com"}, hpOp{kind: "finish", tid: 1})
+		}
+		n := 0
+		for length := 1; length <= 5; length++ {
+			total := 1
+			for j := 0; j < length; j++ {
+				total *= len(alphabet)
+			}
+		next:
+			for code := 0; code < total; code++ {
+				ops := []hpOp{{kind: "refresh", doms: []string{"a.example.com"}}}
+				c, open := code, false
+				for j := 0; j < length; j++ {
+					op := alphabet[c%len(alphabet)]
+					c /= len(alphabet)
+					switch op.kind {
+					case "begin":
+						if open {
+							continue next
+						}
+						open = true
+					case "finish":
+						if !open {
+							continue next
+						}
+						open = false
+					}
+					ops = append(ops, op)
+				}
+				if open {
+					ops = append(ops, hpOp{kind: "finish", tid: 1})
+				}
+				runHP(r, m, rep, 1, ops, true)
+				n++
+			}
+		}
+		r.Distribution["hp.exhaustive_len5_"+rep] += n
 	}
 }
 
